@@ -620,8 +620,23 @@ def rule_py_headers(out):
 
 
 class PyPath:
-    def __init__(self, lits, outcome, env):
+    def __init__(self, lits, outcome, env, events=None):
         self.lits, self.outcome, self.env = lits, outcome, env
+        self.events = events or []  # (call node, number of literals known when it is made)
+
+    def asserts_nonempty(self, subject, upto=None):
+        """len(subject) > 0 is known (among the first `upto` literals)"""
+        want = ("len(%s)" % subject).replace(" ", "")
+        for t, val in self.lits[:upto]:
+            if isinstance(t, ast.Compare) and len(t.ops) == 1:
+                l, r, op = ast.unparse(t.left).replace(" ", ""), ast.unparse(t.comparators[0]).replace(" ", ""), t.ops[0]
+                if l == want and r == "0" and ((isinstance(op, (ast.Gt, ast.NotEq)) and val) or (isinstance(op, (ast.Eq, ast.LtE)) and not val)):
+                    return True
+                if l == want and r == "1" and ((isinstance(op, ast.GtE) and val) or (isinstance(op, ast.Lt) and not val)):
+                    return True
+                if r == want and l == "0" and ((isinstance(op, (ast.Lt, ast.NotEq)) and val) or (isinstance(op, (ast.Eq, ast.GtE)) and not val)):
+                    return True
+        return False
 
     def _expand(self, node):
         """source text of an expression with single-assignment locals replaced by their value"""
@@ -748,18 +763,24 @@ class PathEnum:
         for q in self.paths(stmts, depth):
             env = dict(p.env)
             env.update(q.env)
-            out.append(PyPath(p.lits + q.lits, q.outcome, env))
+            out.append(PyPath(p.lits + q.lits, q.outcome, env, p.events + [(c, n + len(p.lits)) for c, n in q.events]))
         return out
 
     def step(self, st, p, depth):
+        def calls(node):
+            cs = [n for n in ast.walk(node) if isinstance(n, ast.Call)]
+            cs.sort(key=lambda c: (c.lineno, c.col_offset))
+            return [(c, len(p.lits)) for c in cs]
+
         if isinstance(st, ast.Raise):
-            return [PyPath(p.lits, "raise", p.env)]
+            return [PyPath(p.lits, "raise", p.env, p.events)]
         if isinstance(st, ast.Return):
-            return [PyPath(p.lits, "return", p.env)]
+            return [PyPath(p.lits, "return", p.env, p.events + (calls(st.value) if st.value is not None else []))]
         if isinstance(st, ast.If):
             res = []
+            ev = p.events + calls(st.test)
             for val, body in ((True, st.body), (False, st.orelse)):
-                q = PyPath(p.lits + self.split(st.test, val), "fall", p.env)
+                q = PyPath(p.lits + self.split(st.test, val), "fall", p.env, ev)
                 res += self._seq(q, body, depth)
             return res
         if isinstance(st, (ast.For, ast.While)):
@@ -779,11 +800,11 @@ class PathEnum:
                 env.pop(name, None)  # reassigned (or defined from itself): no longer a plain alias
             else:
                 env[name] = val
-            return [PyPath(p.lits, "fall", env)]
+            return [PyPath(p.lits, "fall", env, p.events + calls(st.value))]
         if isinstance(st, ast.AnnAssign) and st.value is not None and isinstance(st.target, (ast.Name, ast.Attribute)):
             env = dict(p.env)
             env[ast.unparse(st.target)] = ast.unparse(st.value)
-            return [PyPath(p.lits, "fall", env)]
+            return [PyPath(p.lits, "fall", env, p.events + calls(st.value))]
         if isinstance(st, ast.Expr) and isinstance(st.value, ast.Call) and isinstance(st.value.func, ast.Name) and st.value.func.id in self.funcs and depth < 3:
             fn = self.funcs[st.value.func.id]
             # bind parameters to the argument texts
@@ -791,9 +812,11 @@ class PathEnum:
             for a, prm in zip(st.value.args, fn.args.args):
                 env[prm.arg] = ast.unparse(a)
             res = []
-            for q in self._seq(PyPath(p.lits, "fall", env), fn.body, depth + 1):
-                res.append(PyPath(q.lits, "fall" if q.outcome in ("fall", "return") else q.outcome, q.env))
+            for q in self._seq(PyPath(p.lits, "fall", env, p.events), fn.body, depth + 1):
+                res.append(PyPath(q.lits, "fall" if q.outcome in ("fall", "return") else q.outcome, q.env, q.events))
             return res
+        if isinstance(st, ast.Expr):
+            return [PyPath(p.lits, "fall", p.env, p.events + calls(st.value))]
         return [p]
 
 
@@ -887,27 +910,21 @@ def rule_py_stream_blocks(out):
     if fn is None:
         out.undecided(rid, "StreamSerializer.write", rel, "not found")
     else:
-        parents = {}
-        for n in ast.walk(fn):
-            for ch in ast.iter_child_nodes(n):
-                parents[ch] = n
-        n_calls = 0
-        for n in ast.walk(fn):
-            if isinstance(n, ast.Call) and isinstance(n.func, ast.Attribute) and n.func.attr == "write_unsigned_varint" and n.args and ast.unparse(n.args[0]).startswith("len("):
-                n_calls += 1
-                subject = ast.unparse(n.args[0])
-                guarded = False
-                p = parents.get(n)
-                child = n
-                while p is not None:
-                    if isinstance(p, ast.If) and child in p.body:
-                        t = ast.unparse(p.test).replace(" ", "")
-                        if (subject.replace(" ", "") + ">0") in t or (subject.replace(" ", "") + "!=0") in t:
-                            guarded = True
-                    child, p = p, parents.get(p)
-                out.check(guarded, rid, "StreamSerializer.write/block length " + subject, pos(rel, n), "block length is written only when it is > 0",
-                          "a block length can be written for an empty batch: the 0 is the end-of-stream marker, so later items of the stream are lost")
-        if n_calls == 0:
+        # on every path, a block length `len(X)` is written only where len(X) > 0 is known
+        pe = PathEnum(tree)
+        sites = {}
+        for p in pe.paths(fn.body):
+            for call, nlits in p.events:
+                if isinstance(call.func, ast.Attribute) and call.func.attr == "write_unsigned_varint" and call.args and ast.unparse(call.args[0]).startswith("len("):
+                    subject = ast.unparse(call.args[0])[4:-1]
+                    ok = p.asserts_nonempty(subject, nlits)
+                    k = (call.lineno, call.col_offset)
+                    sites[k] = (sites.get(k, (True,))[0] and ok, call, subject)
+        for k in sorted(sites):
+            guarded, call, subject = sites[k]
+            out.check(guarded, rid, "StreamSerializer.write/block length len(%s)" % subject, pos(rel, call), "block length is written only when it is > 0",
+                      "a block length can be written for an empty batch: the 0 is the end-of-stream marker, so later items of the stream are lost")
+        if not sites or pe.overflow:
             out.undecided(rid, "StreamSerializer.write/block length", pos(rel, fn), "no block-length write found")
     es = methods(cl["BinaryProtocolWriter"]).get("_end_stream") if "BinaryProtocolWriter" in cl else None
     if es is None:
